@@ -201,9 +201,10 @@ fn make_case(ctx: &Ctx, idx: u64) -> Case {
     }
     let mut p = profile(&mut rng);
     // a quarter of the random configurations use the "plain" grammar (no action that goes through
-    // the action queue, virtual keys, macros or chords) and get the queue-overflowing bursts; the
-    // full grammar is driven with at most 20 events between two ticks (see DESIGN.md section 6:
-    // overflow combined with queued switch actions / macros still loses a release now and then)
+    // the action queue, virtual keys, macros or chords); those and every second configuration of
+    // the full grammar get the queue-overflowing bursts (more than 32 events between two ticks).
+    // The rest is driven with at most 20 events between two ticks. (Until the overflow repairs in
+    // /repo - DESIGN.md section 9.3 - the full grammar could not be driven past the queue bound.)
     let plain = idx % 4 == 1;
     if plain {
         p = p.only(&[
@@ -218,7 +219,7 @@ fn make_case(ctx: &Ctx, idx: u64) -> Case {
     // a tap-hold nested in the hold/timeout action of another tap-hold starts waiting only after
     // an overflow has forced the outer one into "hold" - possibly after its key's release was
     // already consumed; such configurations are driven without overflow as well
-    let overflow_ok = (plain && !has_nested_tap_hold(&g.text)) || idx % 8 == 0;
+    let overflow_ok = (plain && !has_nested_tap_hold(&g.text)) || idx % 2 == 0;
     let keys: Vec<u16> = g.keys.iter().map(|k| osc(k)).collect();
     let mut gaps: Vec<u32> = vec![0, 0, 1, 2, 7];
     for n in g.numbers.iter().take(12) {
@@ -240,6 +241,34 @@ fn make_case(ctx: &Ctx, idx: u64) -> Case {
         };
         let h = if overflow_ok { h } else { cap_pending(h, 20) };
         hists.push((name.to_string(), h));
+    }
+    if overflow_ok && !keys.is_empty() {
+        // eviction histories: one key is pressed and processed by a few ticks (so whatever it
+        // started - a waiting tap-hold, a chord, a one-shot - is live), then its release and at
+        // least 32 further events arrive with no tick in between, so that the release is the
+        // event the full queue evicts (or, in the second form, the one that evicts)
+        for form in 0..ctx.tier.sel(2, 4) {
+            let k = *rng.pick(&keys);
+            let d = *rng.pick(&[1u32, 1, 2, 3, 10]);
+            let mut h = vec![Ev::P(k), Ev::T(d)];
+            if form % 2 == 0 {
+                h.push(Ev::R(k));
+            }
+            let others: Vec<u16> = keys.iter().copied().filter(|x| *x != k).collect();
+            let n_fill = 32 + rng.usize(6);
+            let mut filled = 0;
+            while filled < n_fill {
+                let o = if others.is_empty() { 30u16 } else { *rng.pick(&others) };
+                h.push(Ev::P(o));
+                h.push(Ev::R(o));
+                filled += 2;
+            }
+            if form % 2 == 1 {
+                h.push(Ev::R(k));
+            }
+            h.push(Ev::T(*rng.pick(&[1u32, 50, 400])));
+            hists.push((["evict-release", "evict-by-release"][form % 2].to_string(), h));
+        }
     }
     Case { g, hists, overflow_ok }
 }
@@ -699,6 +728,9 @@ impl Check for C01Check {
                 }
             }
             out.inc("histories");
+            if hname.starts_with("evict") {
+                out.inc("hist_evict");
+            }
             out.count("events", h.len() as u64);
             out.max("queue", max_q as u64);
             out.max("states", max_states as u64);
@@ -786,7 +818,7 @@ impl Check for C01Check {
         out
     }
     fn rule(&self) -> String {
-        "case = one configuration (60 hand-shaped stress configurations reaching >64 states, >8 tap-holds, >16 one-shots, >4 macros, chords-v2 bursts; then the whole non-latching action grammar at random) x 3 (quick) / 6 (thorough) physically consistent histories (random gaps around every configured number, zero-gap bursts that overflow the 32-slot queue, OS repeats). After the history the loop's control flow is emulated (blocking predicate consulted every iteration) until kanata may block, the OS model is all-up and nothing was emitted for 50 ticks, bounded by 4 x (sum of all numbers in the config) + 40 x (rapid-event-delay+2) + 2000 ticks; then up to 3000 more ticks must be silent and idle. Non-trivial = history ran on an accepted config and settled; distinct = (action kinds used, history family, capacity classes reached).".into()
+        "case = one configuration (60 hand-shaped stress configurations reaching >64 states, >8 tap-holds, >16 one-shots, >4 macros, chords-v2 bursts; then the whole non-latching action grammar at random) x 3 (quick) / 6 (thorough) physically consistent histories (random gaps around every configured number, zero-gap bursts that overflow the 32-slot queue - for the plain grammar and for every second configuration of the full grammar -, OS repeats) + for those configurations 2 (quick) / 4 (thorough) eviction histories: one key pressed and processed by 1-10 ticks, then its release and >= 32 further events with no tick in between, so that the release is the event the full queue evicts or the one that evicts. After the history the loop's control flow is emulated (blocking predicate consulted every iteration) until kanata may block, the OS model is all-up and nothing was emitted for 50 ticks, bounded by 4 x (sum of all numbers in the config) + 40 x (rapid-event-delay+2) + 2000 ticks; then up to 3000 more ticks must be silent and idle. Non-trivial = history ran on an accepted config and settled; distinct = (action kinds used, history family, capacity classes reached).".into()
     }
     fn assumptions(&self) -> Vec<String> {
         vec![
@@ -796,6 +828,6 @@ impl Check for C01Check {
         ]
     }
     fn floors(&self, _ctx: &Ctx) -> Vec<(&'static str, u64)> {
-        vec![("histories", 3000), ("hist_queue_full", 20), ("hist_states_full", 3), ("hist_waiting_over_8", 3), ("hist_oneshot_full", 3), ("hist_macros_full", 3)]
+        vec![("histories", 3000), ("hist_queue_full", 20), ("hist_states_full", 3), ("hist_waiting_over_8", 3), ("hist_oneshot_full", 3), ("hist_macros_full", 3), ("hist_evict", 10_000)]
     }
 }
